@@ -225,10 +225,18 @@ class FingerprintDatabase(object):
             already in database. This should only be set to False for
             temporary iterative updating.
         """
+        new_props = {}
         for prop_name, prop_vals in props_dict.items():
             if append and prop_name in self.props:
                 prop_vals = np.append(self.get_prop(prop_name), prop_vals)
-            self.set_prop(prop_name, prop_vals, check_length=check_length)
+            prop_vals = np.asanyarray(prop_vals)
+            if check_length and prop_vals.shape[0] != len(self.fp_names):
+                raise ValueError(
+                    "props must have the same count as fingerprints."
+                )
+            new_props[prop_name] = prop_vals
+        for prop_name, prop_vals in new_props.items():
+            self.set_prop(prop_name, prop_vals, check_length=False)
 
     def get_subset(self, fp_names, name=None):
         """Get database with subset of fingerprints.
